@@ -165,8 +165,9 @@ func (g *InterProceduralFlowGraph) BuildGraph() {
 
 	// Writes the summaries to file if the option is set
 	if summariesFile != nil {
-		// Read-only operation on summaries
-		go func() {
+		// Read-only operation on summaries. The report is written before the summaries are linked (and before the
+		// deferred Close of the file), so that it is complete when BuildGraph returns.
+		func() {
 			for _, summary := range g.Summaries {
 				if summary == nil {
 					continue
